@@ -236,7 +236,7 @@ def stepOp (a : TAcc) (line : String) : TAcc :=
           match (if w3.startsWith "live=" then (w3.drop 5).toString.toNat? else none), w4 with
           | some live, b =>
             let blocked := b == "blocked=1"
-            if live > lv.cfg.maxN then
+            if live > lv.cfg.maxN + (if blocked then 0 else 1) then
               { a with err := some s!"M: op#{a.nops} M-class: {live} buffers alive with the back end held in the sink, buff_max_num is {lv.cfg.maxN} (C10_buffers_bounded)" }
             else if blocked && live != lv.cfg.maxN then
               { a with err := some s!"M: op#{a.nops} M-class: producer blocked on back-pressure with {live} buffers alive, buff_max_num is {lv.cfg.maxN}: blocked before the limit" }
